@@ -53,7 +53,13 @@ where
     T: Into<Cow<'a, str>>,
 {
     let s = s.into();
-    match s.find(char::is_uppercase) {
+    // Titlecase letters and other cased characters also have a lowercase
+    // mapping although `char::is_uppercase` is false for them.
+    let has_lowercase_mapping = |c: char| {
+        let mut lower = c.to_lowercase();
+        !(lower.next() == Some(c) && lower.next().is_none())
+    };
+    match s.find(has_lowercase_mapping) {
         None => Ok(s),
         Some(pos) => {
             let mut res = String::from(&s[..pos]);
